@@ -103,7 +103,10 @@ Proc(fs, dirs, e) ==
   ELSE IF e.k = "g" THEN R(mk.fs, dirs, "run", "pax")
   ELSE LET ls == Lstat(mk.fs, path)
            f1 == IF ~DEV_CreateThroughLink /\ ls.ok /\ ls.n.k = "l" THEN Remove(mk.fs, path).fs ELSE mk.fs
-           c == Create(f1, path) IN
+           c0 == Create(f1, path)
+           \* "allow later entries to clobber earlier ones even if the file has perms that don't allow
+           \* overwriting": on a permission error chmod 0600 and try once more (dead code for a privileged caller)
+           c == IF ~c0.ok /\ c0.perm THEN Create(Chmod(c0.fs, path, 600), path) ELSE c0 IN
        IF ~c.ok THEN R(c.fs, dirs, "err", "create")
        ELSE LET w == [c.fs EXCEPT ![c.at].c = e.c]
                 r == ChmodChtimes(w, path, e.m, e.t)
